@@ -215,8 +215,22 @@ def rule_parse(ctx, repo, eng):
                 if isinstance(test.ops[0], ast.Eq):
                     return frozenset(['sum-ok']), frozenset(['sum-bad'])
         return frozenset(), frozenset()
-    mf = flow.run_must(rd.node, cond=cond)
+    body_reads = [c for k, c in reads if k == 'ser_read' and norm(c.args[1]) == lv]
+
+    def gen(stmt, facts):
+        if not isinstance(stmt, (ast.If, ast.For, ast.While, ast.Try, ast.With)) and any(x is c for c in body_reads for x in ast.walk(stmt)):
+            return facts | {'body-read'}
+        return facts
+    mf = flow.run_must(rd.node, cond=cond, gen=gen)
     nmsg = 0
+    # every frame that is not refused is consumed whole: a return (a message, or None for a command this library does
+    # not know) before the payload has been read leaves the payload in the stream, where the next call takes it for a header
+    for kind, node, facts in mf.exits:
+        if kind in ('return', 'fallthrough') and body_reads:
+            key = 'consumed:%s' % (norm(node.value)[:30] if node is not None and node.value is not None else 'None')
+            r.check('body-read' in facts, key, common.site_of(rd, node) if node is not None else rd.site, 'returns after the payload has been read',
+                    'stream_deserialize returns `%s` before the payload (`ser_read(%s, %s)`) has been read: the stream is left in the middle of the frame and the next call '
+                    'parses payload bytes as a header' % (norm(node.value) if node is not None and node.value is not None else 'None', fparam, lv))
     for kind, node, facts in mf.exits:
         if kind == 'return' and node.value is not None and norm(node.value) != 'None':
             nmsg += 1
